@@ -32,7 +32,7 @@ FILE_TOKEN = '<FILE>'
 # ----------------------------------------------------------------------------- generator
 def gen_case(r):
   """A program spec: facts, derived predicates P1.. (each reads earlier ones), grounding, history."""
-  case = {'db': r.choice(['home', 'home', 'db', 'test'])}
+  case = {'db': r.choice(['home', 'home', 'db', 'test', 'dataset'])}   # dataset: @Dataset("wh") next to an attached logica_home
   case['D'] = [[r.randint(0, 3), r.randint(0, 3)] for _ in range(r.randint(1, 4))]
   case['E'] = [[r.randint(0, 3), r.randint(0, 3)] for _ in range(r.randint(1, 3))]
   m = r.randint(2, 5)
@@ -65,7 +65,7 @@ def gen_case(r):
   for p in preds:
     if p['ground']:
       if case['db'] == 'db' or r.random() < 0.4:
-        p['table'] = '%s.t_%s' % ({'db': 'db', 'home': 'logica_home', 'test': 'logica_test'}[case['db']], p['name'].lower())
+        p['table'] = '%s.t_%s' % ({'db': 'db', 'home': 'logica_home', 'test': 'logica_test', 'dataset': 'wh'}[case['db']], p['name'].lower())
     elif r.random() < 0.3:
       p['plan'] = r.choice(['with', 'nowith'])
   case['preds'] = preds
@@ -118,7 +118,13 @@ def rule_text(p, rule):
 def program(case, grounded=True, file_path=FILE_TOKEN):
   lines = ['@Engine("sqlite");']
   if grounded:
-    lines.append('@AttachDatabase("%s", "%s");' % ({'db': 'db', 'home': 'logica_home', 'test': 'logica_test'}[case['db']], file_path))
+    if case['db'] == 'dataset':
+      # the grounded tables live in the dataset the program names, although logica_home is attached as well
+      lines.append('@AttachDatabase("logica_home", "%s");' % (file_path + '.home'))
+      lines.append('@AttachDatabase("wh", "%s");' % file_path)
+      lines.append('@Dataset("wh");')
+    else:
+      lines.append('@AttachDatabase("%s", "%s");' % ({'db': 'db', 'home': 'logica_home', 'test': 'logica_test'}[case['db']], file_path))
   if case.get('flag'):
     lines.append('@DefineFlag("lim", "%s");' % case['flag']['default'])
   for n in ('D', 'E'):
@@ -135,7 +141,7 @@ def program(case, grounded=True, file_path=FILE_TOKEN):
 
 
 def table_of(case, p):
-  return p['table'] or ('%s.%s' % ('logica_test' if case['db'] == 'test' else 'logica_home', p['name']))
+  return p['table'] or ('%s.%s' % ({'test': 'logica_test', 'dataset': 'wh'}.get(case['db'], 'logica_home'), p['name']))
 
 
 # ----------------------------------------------------------------------------- dependency graph from the real parser
@@ -331,6 +337,9 @@ def run_history(case):
         t = tab[n].split('.', 1)[1]
         if t in filetabs and filetabs[t] != oracle[n]:
           res['problems'].append(tag + 'table %s holds %s, %s denotes %s' % (t, filetabs[t][:8], n, oracle[n][:8]))
+      if case['db'] == 'dataset' and read_file_tables(path + '.home'):
+        res['problems'].append(tag + 'tables %s were written to the attached logica_home, the program names @Dataset("wh")'
+                               % sorted(read_file_tables(path + '.home')))
       for n in junk:
         t = tab[n].split('.', 1)[1]
         if t in filetabs and filetabs[t] != lr.bag([(99,)]):
